@@ -31,3 +31,29 @@ ERROR_CODES = {"corrupt data": 0, "internal error": 1, "no data available": 2, "
 # section 6, seconds
 TIMERS = {"refresh": (1, 86400, 3600), "retry": (1, 7200, 600), "expire": (600, 172800, 7200)}
 HEADER_LEN = 8
+
+
+# ---------------------------------------------------------------- byte-order conversion calls, in whichever spelling
+_CONV_WRAPPERS = {
+    "rtr_pdu_header_to_network_byte_order": ("header", "net"), "rtr_pdu_header_to_host_byte_order": ("header", "host"),
+    "rtr_pdu_footer_to_network_byte_order": ("footer", "net"), "rtr_pdu_footer_to_host_byte_order": ("footer", "host"),
+    "rtr_pdu_to_network_byte_order": ("all", "net"), "rtr_pdu_to_host_byte_order": ("all", "host"),
+}
+
+
+def conv_kind(pdb, fn, inst):
+    """(part, direction) if `inst` converts a PDU's byte order: one of the named wrappers, or the conversion function itself
+    called with a constant direction (what the wrappers are after inlining)"""
+    from engine import vf
+    if inst.op != "call" or not inst.callee:
+        return None
+    if inst.callee in _CONV_WRAPPERS:
+        return _CONV_WRAPPERS[inst.callee]
+    part = {"rtr_pdu_convert_header_byte_order": "header", "rtr_pdu_convert_footer_byte_order": "footer"}.get(inst.callee)
+    if part and len(inst.args) >= 2:
+        d = vf.expr(fn, inst.args[1])
+        if d == ("c", pdb.enum_value("TO_NETWORK_BYTE_ORDER")):
+            return (part, "net")
+        if d == ("c", pdb.enum_value("TO_HOST_HOST_BYTE_ORDER")):
+            return (part, "host")
+    return None
